@@ -215,6 +215,11 @@ def check(run):
         C05.strict(R)            # Text.text / Close.reason are the strict UTF-8 decode of the whole payload
     with R.as_rule('C01.join'):
         C06.wiring(R)            # the decompressor arm of the join: contexts are kept / reset as negotiated
+        C06.activate(R)          # ... and switched on whenever the reply accepts the extension
+    from . import C10
+    R.rule('C01.samehread', 'frames that arrive in the same read as the handshake response are not counted against the 16 KiB '
+                            'header bound (and so not dropped)', 5)
+    C10.limit(R, RID='C01.samehread')
 
 
 # ----------------------------------------------------------------------------------------------- alias
@@ -563,6 +568,41 @@ def accept(R, RID='C01.accept'):
                      'message lost' % (recv.split('.')[-1], bad[:1]), func=fq, node=rn.ast,
                      construct='%s raise %s' % (recv, U(rn.ast.exc)[:60]))
         need(nsites >= 2, 'Frame.validate (%s): raise sites not found' % recv)
+    # the size rules of parse() are about the payload length as decoded (any legal length encoding): a test that feeds a
+    # raise reads the same definitions of the length as the payload read does
+    q = 'frame_parser.FrameParser.parse'
+    g = R.cfg(q, CFP)
+    rd = ReachingDefs(g)
+    reads = C05._payload_reads(R, g, rd)
+    need(reads, 'FrameParser.parse: payload reads not found')
+    site, call = reads[0][0], reads[0][1]
+    lv = call.args[0].id if call.args and isinstance(call.args[0], ast.Name) else None
+    need(lv is not None, 'FrameParser.parse: payload read count is not a plain variable')
+    final = rd.defs_at(site, lv)
+    nt = 0
+    for rn in g.live_nodes():
+        if not (rn.kind == 'stmt' and isinstance(rn.ast, ast.Raise)):
+            continue
+        for (t, lab) in g.edge_guards(rn):
+            if t.kind != 'test':
+                continue
+            for x in walk_no_nested(t.ast):
+                if not isinstance(x, ast.Name):
+                    continue
+                e, n0 = x, t
+                if x.id != lv:
+                    e, n0 = rd.origin(t, x)          # a flag computed earlier: judged where it was computed
+                    if e is x or lv not in {y.id for y in walk_no_nested(e) if isinstance(y, ast.Name)}:
+                        continue
+                nt += 1
+                ok = rd.defs_at(n0, lv) == final
+                R.ob(RID, 'size rule `%s` reads the decoded length' % U(t.ast)[:50], ok,
+                     'the test `%s` that leads to `%s` reads the length as defined by %s, the payload is read with the length '
+                     'defined by %s: a frame whose length is carried in another (legal) encoding is judged on the wrong '
+                     'number' % (U(e)[:60], U(rn.ast.exc)[:50], sorted(d.text()[:30] for d in rd.defs_at(n0, lv)),
+                                 sorted(d.text()[:30] for d in final)), func=q, node=t.ast,
+                     construct='size rule %s' % U(t.ast)[:50])
+    need(nt >= 1, 'FrameParser.parse: no size rule on the decoded length found')
 
 
 # ---------------------------------------------------------------------------------------------- length
